@@ -457,6 +457,15 @@ class EvalMixin:
             raise PyExc(IndexError)
 
     def list_index(self, o, k):
+        if isinstance(k, (SInt, SBV)) and o.pre is not None and not o.items:
+            # symbolic index into a purely symbolic list: element function of the list
+            kt = self.it(k)
+            ln = o.pre[1]
+            if not self.p.branch(z3.And(kt >= 0, kt < ln)):
+                if self.p.branch(z3.And(kt < 0, kt >= -ln)):
+                    return o.pre[2](z3.simplify(kt + ln))
+                raise PyExc(IndexError)
+            return o.pre[2](z3.simplify(kt))
         if isinstance(k, (SInt, SBV)):
             k = self.p.concretize(self.it(k), limit=max(2 * len(o.items) + 4, 16))
         if not isinstance(k, int):
@@ -513,6 +522,12 @@ class EvalMixin:
                 if o.pre is None:
                     return self.p.alloc(HList(o.items[lo:hi:st]))
                 n = len(o.items)
+                if st is None and not o.items and lo in (None, 0) and isinstance(hi, int) and hi >= 0:
+                    # prefix xs[:hi] of a purely symbolic list: same elements, length min(len, hi)
+                    ln = o.pre[1]
+                    if self.p.branch(ln <= hi):
+                        return self.p.alloc(HList([], o.pre))
+                    return self.p.alloc(HList([], (o.pre[0], I(hi), o.pre[2])))
                 if st is None and lo is not None and lo < 0 and -lo <= n and (hi is None or (hi < 0 and -hi <= n)):
                     return self.p.alloc(HList(o.items[lo:hi]))
                 if st is None and (lo is None or lo == 0) and hi is not None and hi < 0 and -hi <= n:
@@ -536,6 +551,9 @@ class EvalMixin:
                     return o.fields[name]
                 if name == "__class__":
                     return o.cls
+                if "_atom" in o.fields and name in o.fields.get("_subatoms", {}):
+                    # an abstract element (symbolic list member): its sub-objects are abstract too
+                    return self.sub_atom(v, o, name)
                 return self.class_attr(o.cls, name, v)
             if isinstance(o, (HList, HDict, HStream, HByteArray)):
                 return BuiltinMethod(v, name)
@@ -617,6 +635,10 @@ class EvalMixin:
                 return mach.compare_vals(cmpn[name], a, b)
             return cmp
         raise Undecided("super().%s on int" % name)
+
+    def sub_atom(self, v, o, name):
+        from .symlist import sub_atom
+        return sub_atom(self, v, o, name)
 
     def cls_of(self, v):
         if isinstance(v, TInt):
@@ -998,8 +1020,7 @@ class EvalMixin:
         spec = self.loop_spec(n, fr)
         desc = self.seq_descriptor(itv)
         if desc is None:
-            if spec is not None:
-                raise Undecided("invariant given for a loop over a concrete sequence")
+            # a concrete-length sequence is simply iterated (an invariant, if any, is not needed)
             for x in self.iterate(itv):
                 self.assign(n.target, x, fr)
                 try:
@@ -1129,7 +1150,25 @@ class EvalMixin:
                 fr.env[x] = self.make_sym(x, hints[x])
             else:
                 raise Undecided("loop body mutates %s in place (give a type hint)" % x)
-        self.assume_all(inv, fr)
+        # an invariant clause of the form `<havocked variable> == <expression not mentioning it>` defines
+        # that variable: bind it to the value of the expression (structurally) instead of assuming an
+        # equation about a fresh symbol -- the same fact, but later comparisons and hashes see the structure
+        rest_inv = []
+        for clause in inv:
+            try:
+                node = self.reg.parse(clause) if self.reg is not None else ast.parse(clause, mode="eval").body
+            except SyntaxError:
+                node = None
+            if (isinstance(node, ast.Compare) and len(node.ops) == 1 and isinstance(node.ops[0], ast.Eq)
+                    and isinstance(node.left, ast.Name) and node.left.id in mods and node.left.id != index
+                    and not any(isinstance(n2, ast.Name) and n2.id == node.left.id for n2 in ast.walk(node.comparators[0]))):
+                try:
+                    fr.env[node.left.id] = self.eval(node.comparators[0], fr)
+                    continue
+                except PyExc:
+                    raise PathEnd()
+            rest_inv.append(clause)
+        self.assume_all(rest_inv, fr)
         if test():
             if pre_body:
                 pre_body()
